@@ -9,6 +9,13 @@ package syntax
 //@   modifies nothing
 //@   ensures result.1 == nil ==> okFile(result.0) && inText(result.0.Range) && result.0.Range.Start == 0 && result.0.Range.End == len(result.0.Range.Text)
 //@   ensures @printable: result.1 == nil ==> prFile(result.0)
+//@   ensures @own: result.1 == nil ==> fresh(result.0.Directives) && ownBookings(result.0) && apartBookings(result.0)
+//@   callback ReadFile=0
+//@   callback New=1
+//@   ensures [C08] [C18] [C07] @read: tlen() >= old(tlen()) + 1 && tkind(old(tlen())) == kind("ReadFile") && targ("ReadFile", 0, old(tlen())) == file
+//@   ensures [C08] [C18] [C07] @two: result.1 == nil ==> tlen() == old(tlen()) + 2
+//@   ensures [C08] [C18] [C07] @verbatim: result.1 == nil ==> targ("New", 0, old(tlen()) + 1) == textOf(tres("ReadFile", old(tlen()))) && targ("New", 1, old(tlen()) + 1) == file
+//@   ensures [C08] [C18] [C07] @text: result.1 == nil ==> result.0.Range.Text == textOf(tres("ReadFile", old(tlen())))
 //
 // FormatFile always formats - whatever the number of directives (a file of comments only is copied
 // verbatim by Format's tail gap).
